@@ -527,7 +527,8 @@ def r6_pairs(facts):
                 out.append(Obl('C18.R6', fn.name, '%s = %s' % (short(t['n']), short(r['n'])), st['loc'], 'discharged' if ok else 'finding',
                                why='callback / user data of the same slot' if ok else
                                'the user-data slot of one callback is wired to the user data registered for another: after this reset the callback fires with a foreign pointer'))
-    if len(out) < 12:
+    need = 6 if facts.fns.get('OPNMIDIplay::initSequencerInterface') else 0       # without the sequencer only the hook setters remain; without the VGM dumper no re-wiring in the reset paths
+    if len(out) < need:
         raise build.AnalysisBroken('C18.R6: only %d callback user-data re-wirings found' % len(out))
     return out
 
